@@ -4,7 +4,7 @@ Simulated dimension: seeded histories of scheduler registrations / removals / re
 injected rejections (duplicate id, unknown id), interleaved with timesteps."""
 from ECAgent.Collectors import Collector
 
-from .common import Model, Rec, RefSched, SystemNotFoundError, gen_flavour, gen_prio, rec_class
+from .common import SID, Model, Rec, RefSched, SystemNotFoundError, gen_flavour, gen_prio, rec_class
 
 PROPERTY = "C01"
 QUICK_RUNS = 24000
@@ -79,7 +79,7 @@ def generate(rng, tier):
     # a long-lived process: very many registrations (in other models) have happened before this history starts
     r = rng.random()
     churn = 2 ** 20 + 11 if r < 0.0004 else (2 ** 16 + 3 if r < 0.003 else (300 if r < 0.02 else 0))
-    return dict({"pool": pool, "ops": ops, "churn": churn}, **gen_flavour(rng))
+    return dict({"pool": pool, "ops": ops, "churn": churn, "strsub_ids": rng.random() < 0.1}, **gen_flavour(rng))
 
 
 class World:
@@ -94,13 +94,22 @@ class World:
 def execute(sc, ctx):
     Rec_ = rec_class(sc, ctx)       # noqa: N806
     w = World(ctx)
+
+    def sid_of(spec_):
+        return dict(spec_, id=SID(spec_["id"])) if sc.get("strsub_ids") else spec_
+    if sc.get("strsub_ids"):
+        ctx.probe("str_subclass_ids")
     if sc.get("churn"):
         from ECAgent.Core import System
         tm = Model(seed=1)
         junk = System("churn", tm)
-        for _ in range(min(int(sc["churn"]), 2 ** 20 + 64)):
+        for j_ in range(min(int(sc["churn"]), 2 ** 20 + 64)):
             tm.systems.add_system(junk)
             tm.systems.remove_system("churn")
+            if j_ % 4096 == 17:      # (also keeps a leaking queue from turning the prelude quadratic)
+                ctx.check(len(tm.systems.execution_queue) == 0 and not tm.systems.systems, "registry",
+                          f"after {j_ + 1} add/remove cycles of one system the execution queue holds "
+                          f"{len(tm.systems.execution_queue)} entries and the registry {len(tm.systems.systems)}")
         ctx.probe("process_with_many_earlier_registrations" if sc["churn"] > 1000 else "process_with_earlier_registrations")
     model = Model(seed=20260927)
     sm = model.systems
@@ -131,7 +140,7 @@ def execute(sc, ctx):
                 dup.pop("default_prio", None)
                 ctx.fault("reject.dup_system")
                 ctx.probe("dup_rejected")
-                obj = Rec_(dup, model, w) if spec["kind"] == "system" else RecCollector(dup, model, w)
+                obj = Rec_(sid_of(dup), model, w) if spec["kind"] == "system" else RecCollector(dup, model, w)
                 ctx.expect_raises("add-duplicate", KeyError, sm.add_system, obj)
                 ctx.event("add_rejected", sid)
                 shape.append(["dup", len(ref.q)])
@@ -140,7 +149,7 @@ def execute(sc, ctx):
                     obj = retired[sid]          # the very same System object is registered again
                     ctx.probe("same_object_reregistered")
                 else:
-                    obj = Rec_(spec, model, w) if spec["kind"] == "system" else RecCollector(spec, model, w)
+                    obj = Rec_(sid_of(spec), model, w) if spec["kind"] == "system" else RecCollector(sid_of(spec), model, w)
                 ctx.expect_ok("add", sm.add_system, obj)
                 live[sid] = obj
                 pos = ref.add(spec)
